@@ -87,6 +87,10 @@ type ibtpScenario struct {
 	ops    []string
 	prop   string
 	audit  bool
+	router interface {
+		GetInterchainTxWrappers(appchainID string, begin, end uint64, ch chan<- *pb.InterchainTxWrappers) error
+	}
+	reqAccBefore, rcpAccBefore []uint64
 	// scratch statuses for prediction inside the block under construction
 }
 
